@@ -67,6 +67,11 @@ CORPUS = [
     ("tuple1", Tuple([L("u8")])),
     ("tuple8", Tuple([L("u8"), L("u8"), L("u8"), L("u8"), L("u8"), L("u8"), L("u8"), Array(2, L("u8"))])),
     ("tstruct11", TStruct([F(None, L("u8")) for _ in range(11)])),
+    ("tstruct11_deep", TStruct([F(None, named(("channel_with_long_name", named(("gain", L("u8")),)),))]
+                                + [F(None, L("u8")) for _ in range(10)])),
+    ("tstruct12_last", TStruct([F(None, L("u8")) for _ in range(11)] + [F(None, named(("x", L("u8")),))])),
+    ("result_uneven", Named2("Result", [named(("a", L("u8")),), named(("history", Array(11, L("u8"))),)])),
+    ("arr_huge", Array(2**63 + 1, L("unit"))),
     ("deep", named(("a", named(("b", named(("c", named(("d", named(("e", L("u8")), ("f", L("u8")))),)),)),)),
                    ("longname_with_many_bytes", Array(10, L("u8"))), ("z", L("u8")))),
     ("values", named(("u8", L("u8")), ("u64", L("u64")), ("i8", L("i8")), ("i64", L("i64")), ("b", L("bool")),
@@ -76,4 +81,35 @@ CORPUS = [
     ("opt_nested", named(("oo", Gate("option", Gate("option", L("u8")))), ("ob", Gate("option", Gate("box", Array(2, L("u8"))))))),
     ("result_arr", Array(2, Named2("Result", [L("u8"), L("i8")]))),
     ("bound_range", named(("lo", Named2("Bound", [L("u8")])), ("r", Named2("RangeFrom", [Named2("RangeTo", [L("u8")])])))),
+
 ]
+
+# every container kind wrapping an internal node, followed by a deeper sibling: exercises
+# how each container passes result/error depths up (NotFound below it drives the iterator)
+def _wrapped(kind):
+    inner = Array(2, L("u8"))
+    if kind == "tuple":
+        return Tuple([inner])
+    if kind == "array":
+        return Array(1, inner)
+    if kind in ("Range", "RangeInclusive", "RangeFrom", "RangeTo", "Bound"):
+        return Named2(kind, [inner])
+    if kind == "Result":
+        return Named2("Result", [inner, Array(3, L("u8"))])
+    if kind == "struct":
+        return named(("w", inner))
+    if kind == "flat":
+        return named(("w", inner), flat=True)
+    if kind == "tstruct":
+        return TStruct([F(None, inner)])
+    if kind == "enum":
+        return Enum([V("W", inner), V("U")])
+    if kind == "flatenum":
+        return Enum([V("W", inner), V("U")], flat=True)
+    return Gate(kind, inner)
+
+
+for _k in ["tuple", "array", "Range", "RangeInclusive", "RangeFrom", "RangeTo", "Bound", "Result", "struct", "flat",
+           "tstruct", "enum", "flatenum", "option", "box", "refcell", "rc", "arc", "rcweak", "arcweak", "cow", "mutex",
+           "rwlock"]:
+    CORPUS.append((f"wrap_{_k}", named(("k", _wrapped(_k)), ("c", Array(1, Array(3, L("u8")))), ("z", L("u8")))))
